@@ -273,6 +273,11 @@ class C17(F.Spec):
     # model: `val` lines pass through, the assembled password is compared with the CONNECT packet
     def derive_model(self, case, raw):
         ops, exp = [], []
+        dev = PREFIX
+        for g in raw:
+            for x in g:
+                if x.startswith("PREFIX "):
+                    dev = x[7:].encode()
         for op, g in zip(case.ops, raw):
             if op.startswith("val "):
                 ops.append(op)
@@ -280,6 +285,11 @@ class C17(F.Spec):
             elif op.startswith("packhdr "):
                 ops.append(op)
                 exp.append([x for x in g if x.startswith("PACKHDR ")])
+            elif op.startswith("topic "):
+                # the relay command parser against its Lean model (Model/MqttTopic); the device prefix as the client printed it
+                t = op.split()
+                ops.append("topic %s %s %s" % (dev.hex() or "-", t[1], t[2]))
+                exp.append([x for x in g if x.startswith("SETON ")])
             elif op == "connected" and case.meta.get("kind") == "connect" and not case.meta.get("noauth"):
                 uf, pf = bytes.fromhex(case.meta["uf"]), bytes.fromhex(case.meta["pf"])
                 ulen = uf.index(0) if 0 in uf else E
